@@ -9,11 +9,18 @@ import (
 	"bytes"
 	"encoding/binary"
 	"fmt"
+	"io"
+	"os"
+	"path/filepath"
 	"sync"
 
+	blocks "github.com/ipfs/go-block-format"
 	"github.com/ipfs/go-cid"
+	carv1root "github.com/ipld/go-car"
 	carv2 "github.com/ipld/go-car/v2"
+	"github.com/ipld/go-car/v2/blockstore"
 	"github.com/ipld/go-car/v2/index"
+	"github.com/ipld/go-car/v2/storage"
 	"github.com/multiformats/go-multicodec"
 	mh "github.com/multiformats/go-multihash"
 )
@@ -145,4 +152,121 @@ func bigWrapCase() string {
 		return "index of the wrapped file: " + err.Error()
 	}
 	return checkBigIndex(idx, secs)
+}
+
+// bigBlockCases: one block of 5 MiB (a four-byte length prefix; beyond any buffer a reader may start with)
+// written by the read-write blockstore and read back by every kind of reader.
+func bigBlockCases(dir string) [][2]string {
+	var out [][2]string
+	data := detBytes("five-mebibytes", 5<<20)
+	h, _ := mh.Sum(data, mh.SHA2_256, -1)
+	c := cid.NewCidV1(cid.Raw, h)
+	small := alphaByID["b1"]
+	path := filepath.Join(dir, "bigblock.car")
+	os.Remove(path)
+	defer os.Remove(path)
+	bs, err := blockstore.OpenReadWrite(path, []cid.Cid{c})
+	if err != nil {
+		return [][2]string{{"open", err.Error()}}
+	}
+	blk, _ := blocks.NewBlockWithCid(data, c)
+	if err := bs.Put(bg, mkBlock(small)); err != nil {
+		out = append(out, [2]string{"put", err.Error()})
+	}
+	if err := bs.Put(bg, blk); err != nil {
+		out = append(out, [2]string{"put", err.Error()})
+	}
+	if g, err := bs.Get(bg, c); err != nil || !bytes.Equal(g.RawData(), data) {
+		out = append(out, [2]string{"ReadWrite.Get", fmt.Sprintf("Get of the 5 MiB block before Finalize: err=%v, bytes equal=%v", err, err == nil && bytes.Equal(g.RawData(), data))})
+	}
+	if err := bs.Finalize(); err != nil {
+		return append(out, [2]string{"finalize", err.Error()})
+	}
+	file, _ := os.ReadFile(path)
+	h2, err := refParseV2(file)
+	if err != nil {
+		return append(out, [2]string{"file", err.Error()})
+	}
+	want := append(refHeader([]cid.Cid{c}), append(refSection(small.Cid, small.Data), refSection(c, data)...)...)
+	if !bytes.Equal(h2.Payload, want) {
+		out = append(out, [2]string{"payload", "the payload is not header, small block, 5 MiB block"})
+	}
+	check := func(kind string, got []blocks.Block, err error) {
+		if err != nil {
+			out = append(out, [2]string{kind, "fails on a valid archive: " + err.Error()})
+			return
+		}
+		if len(got) != 2 || !got[1].Cid().Equals(c) || !bytes.Equal(got[1].RawData(), data) || !bytes.Equal(got[0].RawData(), small.Data) {
+			out = append(out, [2]string{kind, fmt.Sprintf("returned %d blocks; the 5 MiB block's bytes are not what was written", len(got))})
+		}
+	}
+	for _, kind := range []string{"v2.BlockReader", "v2.BlockReader(plain io.Reader)", "root.CarReader", "root.LoadCar", "internal.CarReader", "internal.LoadCar(batch)"} {
+		_, got, err := readAllWith(kind, file, h2.Payload, false)
+		check(kind, got, err)
+	}
+	ro, err := blockstore.OpenReadOnly(path)
+	if err != nil {
+		out = append(out, [2]string{"OpenReadOnly", err.Error()})
+	} else {
+		if g, err := ro.Get(bg, c); err != nil || !bytes.Equal(g.RawData(), data) {
+			out = append(out, [2]string{"ReadOnly.Get", fmt.Sprintf("err=%v", err)})
+		}
+		if n, err := ro.GetSize(bg, c); err != nil || n != len(data) {
+			out = append(out, [2]string{"ReadOnly.GetSize", fmt.Sprintf("%d (err=%v)", n, err)})
+		}
+		ro.Close()
+	}
+	if sc, err := storage.OpenReadable(bytes.NewReader(file)); err == nil {
+		if g, err := sc.Get(bg, c.KeyString()); err != nil || !bytes.Equal(g, data) {
+			out = append(out, [2]string{"storage.Get", fmt.Sprintf("err=%v", err)})
+		}
+	}
+	return out
+}
+
+// rootReaderLifecycle: root-module readers are independent objects: two of them alive at once (after a LoadCar)
+// each yield their own archive, and a reader that reached the end keeps answering io.EOF.
+func rootReaderLifecycle() string {
+	a := Arch{Roots: []string{"b1"}, Secs: []string{"b1", "b4", "b9"}, Ver: 1}
+	b := Arch{Roots: []string{"b4"}, Secs: []string{"b13", "b12", "b6", "b8"}, Ver: 1}
+	if _, err := carv1root.LoadCar(bg, &batchOrderStore{}, bytes.NewReader(a.build())); err != nil {
+		return "LoadCar: " + err.Error()
+	}
+	ra, err1 := carv1root.NewCarReader(bytes.NewReader(a.build()))
+	rb, err2 := carv1root.NewCarReader(bytes.NewReader(b.build()))
+	if err1 != nil || err2 != nil {
+		return fmt.Sprintf("NewCarReader: %v %v", err1, err2)
+	}
+	var ga, gb []string
+	for i := 0; i < 6; i++ {
+		if x, err := ra.Next(); err == nil {
+			if bl, ok := blockOfCid(x.Cid()); ok && bytes.Equal(bl.Data, x.RawData()) {
+				ga = append(ga, bl.ID)
+			} else {
+				ga = append(ga, "?")
+			}
+		} else if err != io.EOF {
+			return "reader A: " + err.Error()
+		}
+		if x, err := rb.Next(); err == nil {
+			if bl, ok := blockOfCid(x.Cid()); ok && bytes.Equal(bl.Data, x.RawData()) {
+				gb = append(gb, bl.ID)
+			} else {
+				gb = append(gb, "?")
+			}
+		} else if err != io.EOF {
+			return "reader B: " + err.Error()
+		}
+	}
+	if fmt.Sprint(ga) != fmt.Sprint(a.Secs) || fmt.Sprint(gb) != fmt.Sprint(b.Secs) {
+		return fmt.Sprintf("two readers read in turns returned %v and %v, the archives hold %v and %v", ga, gb, a.Secs, b.Secs)
+	}
+	rc, _ := carv1root.NewCarReader(bytes.NewReader(b.build()))
+	if x, err := ra.Next(); err != io.EOF {
+		return fmt.Sprintf("a reader at its end returned (%v, %v) after another reader was opened", x, err)
+	}
+	if x, err := rc.Next(); err != nil || !x.Cid().Equals(alphaByID["b13"].Cid) {
+		return "a fresh reader does not start at its first block"
+	}
+	return ""
 }
